@@ -28,6 +28,8 @@ def main():
         name = "r2" + name      # second round of independently seeded changes
     if "/mut3-" in mdir:
         name = "r3" + name      # third round
+    if "/mut4-" in mdir:
+        name = "r4" + name      # fourth round
     meta = json.load(open(os.path.join(mdir, "meta.json")))
     readme = open(os.path.join(mdir, "demo", "README.txt")).read() if os.path.exists(os.path.join(mdir, "demo", "README.txt")) else ""
     orig_repo = os.path.dirname(os.path.dirname(mdir)) + "/repo"
